@@ -3,6 +3,9 @@ import DeltaModel.Generated.CallerShape
 import Proofs.Caller
 import Proofs.CallerMeasure
 import Proofs.CallerGates
+import DeltaModel.CallerScan
+import DeltaModel.Generated.CallerDescribe
+import Proofs.CallerScan
 /-!
 C20 — calling-process detection gives the same answer under every thread schedule.
 
@@ -11,6 +14,11 @@ protocol of `src/utils/process.rs`, atomic at statement granularity). A schedule
 arbitrary `List Choice`; `run cfg (init cfg) cs = some s` says the schedule is executable
 (every chosen step enabled) and ends in `s`. All theorems quantify over ALL schedules,
 including spurious wake-ups, all guesses, all published values and any number of queries.
+
+The computation of the background thread (`compute`: the process-table scan with its callback
+`describe_calling_process`) is modelled in `DeltaModel/CallerScan.lean`; the last section proves that
+it returns for every process table (so the protocol theorems apply unconditionally) and that this is
+necessary: with a callback that can panic some schedule leaves the first query waiting for ever.
 -/
 namespace C20
 open Caller
@@ -214,5 +222,151 @@ theorem late_publication_violates_known_wins :
   ⟨[main, main, main, bg, bg, bg, bg, bg, bg, main, main, main, main,
     main, main, main, main, main, main, main, main, main],
     _, rfl, Cell.val 1, by decide, by decide⟩
+
+/-! ### The background determination always finishes: the scan callback is total
+
+`no_deadlock`, `query_never_pending`, … are about a background thread whose `compute` step
+completes. `compute` is `calling_process_cmdline(ProcInfo::new(), describe_calling_process)`; a panic
+of the callback on the command line of SOME process of the table kills the thread before it takes
+the lock. `CallerScan.describeWith` interprets the shape of `describe_calling_process` extracted from
+process.rs on this run (`Generated/CallerDescribe.lean`): indexing / slicing / unwrapping the
+argument slice are error branches. -/
+
+open CallerScan
+
+/-- The extracted shape is total: the command and the remaining arguments are taken through an
+iterator (no `args[0]`, `args[1..]`, `unwrap`), there is an arm for an empty slice, the arms over the
+file stem are recognised and exhaustive, every result is recognised. -/
+theorem describe_shape_total : theShape.total = true := by decide
+
+/-- `describe_calling_process` returns for EVERY argument slice — the empty one, one whose first
+element has no file stem (`/`, `.`, `..`, empty), any length, any content. -/
+theorem describe_total (argv : Argv) : ∃ o, describe argv = .ok o :=
+  describeWith_total theShape describe_shape_total argv
+
+/-- The arm "Empty arguments (not expected); keep looking": a process without a command line
+(zombie, kernel thread, `argv[0] == ""`) is just another process. -/
+theorem describe_empty_command_line : describe [] = .ok .otherProcess := by decide
+
+/-- Every other construct that can panic in the code the background thread runs before its guess is
+stored (`describe_calling_process`, `is_git_binary`, `parse_command_line`, `determine_calling_process`,
+`calling_process_cmdline`, `parent_process`, `naive_sibling_process`,
+`find_sibling_in_refreshed_processes`, `iter_parents`, the closure itself) is one of the idioms
+that cannot fire (`CallerScan.totalKinds`). A new `unwrap`, index, slice, `expect`, panic macro or
+unsigned subtraction there breaks this theorem. -/
+theorem scan_panic_points_total :
+    Generated.CallerDescribe.panicPoints.all (fun p => totalKinds.contains p.2.2) = true := by decide
+
+/-- The rest of the extracted scan code is what the model executes: branch order of
+`parse_command_line`, steps of `is_git_binary`, depths and arms of the parent loop. -/
+theorem shape_scan :
+    Generated.CallerDescribe.parseCommandLine = parseShape ∧
+    Generated.CallerDescribe.isGitBinary = isGitBinaryShape ∧
+    Generated.CallerDescribe.parentDepths = parentDepthsShape ∧
+    Generated.CallerDescribe.parentArms = parentArmsShape := by decide
+
+/-- The scan returns for EVERY process table (any ancestors, any pid-1 process, any neighbours). -/
+theorem background_computation_returns (t : Table) : ∃ g, scan theShape t = .ok g :=
+  scan_total theShape describe_shape_total t
+
+/-- Hence, whatever the process table, the system with the computation spelled out IS the protocol
+model: all theorems above hold for it without the assumption "the computation returns". -/
+theorem scan_refines_protocol (t : Table) (cfg : Cfg) (s : State) (cs : List Choice) :
+    runScan cfg (scanReturns theShape t) s cs = run cfg s cs := by
+  rw [scanReturns_of_total theShape describe_shape_total t]
+  exact runScan_true cfg s cs
+
+/-- No deadlock and no `Pending` answer, for every process table and every schedule, computation
+included. -/
+theorem no_deadlock_with_scan (t : Table) (cfg : Cfg) (cs : List Choice) (s : State)
+    (h : runScan cfg (scanReturns theShape t) (init cfg) cs = some s) :
+    Cell.pending ∉ s.results ∧
+    (final s = false → ∃ c, c ≠ Choice.spurious ∧ (stepScan cfg (scanReturns theShape t) s c).isSome = true) := by
+  rw [scan_refines_protocol] at h
+  refine ⟨query_never_pending cfg cs s h, fun hf => ?_⟩
+  obtain ⟨c, hc, hs⟩ := no_deadlock cfg s ⟨cs, h⟩ hf
+  refine ⟨c, hc, ?_⟩
+  rw [scanReturns_of_total theShape describe_shape_total t, stepScan_true]
+  exact hs
+
+/-! #### Totality is necessary -/
+
+/-- If the computation panics and delta did not launch the command itself, NO schedule ever answers
+a query: the cell stays `Pending` and the main thread never finishes. -/
+theorem panicking_scan_never_answers (cfg : Cfg) (hk : cfg.known = none) (hq : 0 < cfg.queries)
+    (cs : List Choice) (s : State) (h : runScan cfg false (init cfg) cs = some s) :
+    s.results = [] ∧ s.cell = Cell.pending ∧ s.mpc ≠ MPc.done := by
+  have st := starved_run cfg cs _ s (starved_init cfg hk hq) h
+  refine ⟨st.results, st.cell, ?_⟩
+  rcases st.mpc with h | h | h | h | h <;> simp [h]
+
+/-- If the callback can panic — some process table makes the scan fail — then a schedule exists in
+which the first query waits for ever: the background thread is gone, the main thread sleeps in the
+condvar with the mutex free, no step other than a spurious wake-up is enabled, and no continuation
+(spurious wake-ups included) ever answers the query. -/
+theorem partial_callback_blocks_query (sh : Shape) (t : Table) (hp : scanReturns sh t = false)
+    (cfg : Cfg) (hk : cfg.known = none) (hq : 0 < cfg.queries) :
+    ∃ cs s, runScan cfg (scanReturns sh t) (init cfg) cs = some s ∧
+      s.bpc = BPc.done ∧ s.mpc = MPc.asleep ∧ s.owner = none ∧ s.cell = Cell.pending ∧
+      (∀ c, c ≠ Choice.spurious → stepScan cfg (scanReturns sh t) s c = none) ∧
+      (∀ cs' s', runScan cfg (scanReturns sh t) s cs' = some s' → s'.results = [] ∧ s'.mpc ≠ MPc.done) := by
+  have hq' : cfg.queries ≠ 0 := by omega
+  rw [hp]
+  refine ⟨[Choice.bg, Choice.main, Choice.main, Choice.main], ?_⟩
+  have hrun : runScan cfg false (init cfg) [Choice.bg, Choice.main, Choice.main, Choice.main] =
+      some { init cfg with bpc := BPc.done, mpc := MPc.asleep, waiters := [Tid.main] } := by
+    simp [runScan, stepScan, stepBgScan, stepMain, init, hk, queryStart, hq']
+  refine ⟨_, hrun, rfl, rfl, by simp [init], by simp [init], ?_, ?_⟩
+  · intro c hc
+    cases c with
+    | bg => simp [stepScan, stepBgScan, stepBg]
+    | main => simp [stepScan, stepMain]
+    | spurious => exact absurd rfl hc
+  · intro cs' s' h'
+    have st : Starved ({ init cfg with bpc := BPc.done, mpc := MPc.asleep, waiters := [Tid.main] } : State) :=
+      starved_run cfg _ _ _ (starved_init cfg hk hq) hrun
+    have st' := starved_run cfg cs' _ s' st h'
+    refine ⟨st'.results, ?_⟩
+    rcases st'.mpc with h | h | h | h | h <;> simp [h]
+
+/-- The flattened callback (`Path::new(&args[0])`, `args[1..]`, no arm for the empty slice — NOT what
+the code does) panics on the empty command line … -/
+theorem flattened_callback_panics_on_empty :
+    describeWith flattenedShape [] = .error "index out of bounds" := by decide
+
+/-- … and on no other input does it differ from the callback of the source: the change is invisible to
+every test whose process table has no empty command line. -/
+theorem flattened_callback_agrees_on_nonempty (a : Arg) (as : Argv) :
+    describeWith flattenedShape (a :: as) = describe (a :: as) :=
+  flattened_agrees_on_nonempty (by decide) (by decide) a as
+
+/-- … so under a parent (or any scanned process) without a command line the scan panics … -/
+theorem flattened_scan_panics_under_empty_parent (more : List Argv) (sib : Option Argv) (ns : List Argv) :
+    scanReturns flattenedShape ⟨[] :: more, sib, ns⟩ = false := by
+  simp [scanReturns, scan_panics_of_parent flattenedShape [] _ flattened_callback_panics_on_empty]
+
+/-- … and the first query of a piped delta can wait for ever (`partial_callback_blocks_query`
+instantiated): totality of the callback is what `no_deadlock` rests on. -/
+theorem flattened_callback_blocks_query :
+    ∃ t cs s, runScan cfgGuess (scanReturns flattenedShape t) (init cfgGuess) cs = some s ∧
+      s.mpc = MPc.asleep ∧ s.bpc = BPc.done ∧
+      (∀ c, c ≠ Choice.spurious → stepScan cfgGuess (scanReturns flattenedShape t) s c = none) ∧
+      (∀ cs' s', runScan cfgGuess (scanReturns flattenedShape t) s cs' = some s' → s'.results = []) := by
+  obtain ⟨cs, s, h1, h2, h3, _, _, h6, h7⟩ :=
+    partial_callback_blocks_query flattenedShape ⟨[[]], none, []⟩
+      (flattened_scan_panics_under_empty_parent [] none []) cfgGuess rfl (by decide)
+  exact ⟨_, cs, s, h1, h3, h2, h6, fun cs' s' h => (h7 cs' s' h).1⟩
+
+/-- Concrete command lines through the callback of the pinned source (non-vacuity of the model):
+`/usr/bin/git -c a=b show --word-diff -p HEAD:src/x.rs`, `RG.exe foo`, `/`, `git status`. -/
+example : describe ["/usr/bin/git".toList, "-c".toList, "a=b".toList, "show".toList, "--word-diff=x".toList,
+      "-pq".toList, "HEAD:src/x.rs".toList] =
+    .ok (.args (.git "GitShow" ⟨["--word-diff".toList], ["-p".toList, "-q".toList], some "HEAD:src/x.rs".toList⟩
+      (some "x.rs".toList))) := by decide
+example : describe ["RG.exe".toList, "foo".toList] = .ok (.args .otherGrep) := by decide
+example : describe ["/".toList, "diff".toList] = .ok .otherProcess := by decide
+example : describe ["git".toList, "status".toList] = .ok .argError := by decide
+example : scan theShape ⟨[["sh".toList], [], ["git.exe".toList, "blame".toList, "x".toList]], some [], []⟩ =
+    .ok (some (.git "GitBlame" ⟨[], [], some "x".toList⟩ none)) := by decide
 
 end C20
